@@ -80,11 +80,17 @@ def compParamOk (c : Comp) : Bool :=
   else if c.type = COMP_CODE_JPEG then decide (0 ≤ c.info ∧ c.info ≤ 100)
   else true
 
+/-- the test after the `':'` search (commit b6f2d28): an empty object list (`end_obj == 0`) or one that ends with `','`
+    (`str[end_obj - 1] == ','`) is refused - the name loop would store fewer names than `*n_objs` = commas + 1 announces, and
+    `hrepack_addcomp` / `options_add_comp` then used the unwritten `obj_list` entry -/
+def badObjList (s : Str) (e : Nat) : Bool := e = 0 || s.getD (e - 1) ' ' = ','
+
 /-- `parse_comp`: `(n_objs, names, comp)` or rejection -/
 def parseComp (s : Str) : Option (Nat × List Str × Comp) :=
   match lastColon s with
   | none => none                                               -- missing ':'
   | some e =>
+    if badObjList s e then none else                           -- invalid object list
     match namesLoop (s.take e) [] with
     | none => none
     | some names =>
@@ -102,21 +108,27 @@ deriving DecidableEq, Repr, Inhabited
 
 def chunkChar (c : Char) : Bool := c.isDigit || c = 'x' || c = 'N' || c = 'O' || c = 'E'
 
-/-- the "get chunk info" loop of `parse_chunk`; `sd` = `sdim` so far, `lens` = lengths stored so far -/
+/-- the "get chunk info" loop of `parse_chunk`; `sd` = `sdim` so far, `lens` = lengths stored so far (`c_index` = their number).
+    At every `'x'` and at the last character the loop first refuses `c_index >= H4_MAX_VAR_DIMS` - the caller's `chunk_lengths[]`
+    has that many entries (commit 5787e18; before it the 33rd length was written beyond the array) -/
 def chunkValue : Str → Str → List Nat → Option Chunk
   | [], _, _ => none
   | c :: rest, sd, lens =>
     if sd.length ≥ SDIM_SZ - 1 || (c = 'x' && rest.isEmpty) then none   -- sdim[10] full / nothing after the last 'x'
     else if !chunkChar c then none
     else if c = 'x' then
-      let v := atoi sd
-      if v = 0 then none else chunkValue rest [] (lens ++ [v])
+      if lens.length ≥ H4_MAX_VAR_DIMS then none                        -- too many chunk dimensions
+      else
+        let v := atoi sd
+        if v = 0 then none else chunkValue rest [] (lens ++ [v])
     else match rest with
       | [] =>
-        let sd' := sd ++ [c]
-        if sd' = "NONE".toList then some ⟨-2, []⟩
-        else let v := atoi sd'
-          if v = 0 then none else some ⟨(lens.length + 1 : Nat), lens ++ [v]⟩
+        if lens.length ≥ H4_MAX_VAR_DIMS then none                      -- too many chunk dimensions (also before `NONE`)
+        else
+          let sd' := sd ++ [c]
+          if sd' = "NONE".toList then some ⟨-2, []⟩
+          else let v := atoi sd'
+            if v = 0 then none else some ⟨(lens.length + 1 : Nat), lens ++ [v]⟩
       | _ :: _ => chunkValue rest (sd ++ [c]) lens
 
 /-- `parse_chunk` -/
@@ -124,6 +136,7 @@ def parseChunk (s : Str) : Option (Nat × List Str × Chunk) :=
   match lastColon s with
   | none => none
   | some e =>
+    if badObjList s e then none else                           -- invalid object list
     match namesLoop (s.take e) [] with
     | none => none
     | some names =>
@@ -264,20 +277,24 @@ def addChunk (s : Str) (o : Options) : Option Options :=
 
 def isSpace (c : Char) : Bool := c = ' ' || c = '\n' || c = '\t' || c = '\r' || c = '\x0b' || c = '\x0c'
 
-/-- `read_info`: `fscanf("%s")` tokens `-t` / `-c`, each followed by a double-quoted value -/
+/-- `read_info`: `fscanf("%9s")` tokens `-t` / `-c`, each followed by a double-quoted value.  A token is cut after
+    `READ_INFO_TOKEN_WIDTH` characters (the rest is the next token - neither part is `-t` / `-c` then), a value whose characters and
+    closing quote do not fit in `info[READ_INFO_SZ]` is refused (commit 6ab7877; before it both went beyond their stack buffers) -/
 def readInfo : Nat → Str → Options → Option Options
   | 0, _, o => some o
   | fuel + 1, s, o =>
     let s := s.dropWhile isSpace
     if s.isEmpty then some o
     else
-      let tok := s.takeWhile (fun c => !isSpace c)
+      let tok := (s.takeWhile (fun c => !isSpace c)).take READ_INFO_TOKEN_WIDTH
       let rest := s.drop tok.length
       if tok = "-t".toList || tok = "-c".toList then
         match rest.dropWhile (· ≠ '"') with
         | [] => none                                            -- no opening quote before end of file
         | _ :: r2 =>
           let info := r2.takeWhile (· ≠ '"')
+          if info.length ≥ READ_INFO_SZ then none               -- option too long (or end of file, whichever comes first)
+          else
           match r2.drop info.length with
           | [] => none                                          -- no closing quote
           | _ :: r4 =>
